@@ -16,7 +16,7 @@ if __name__ == '__main__':
     for f, src, kind, deref, var in nullres.deref_sites(F):
         base = f.short + '/%d' % len(f.params)
         ks = ['%s|%s|%s' % (base, kind, (var or render(src))[:50]), '%s|%s|%s' % (base, kind, render(src)[:50]), '%s|%s|%s' % (base, kind, render_prov(f, src)[:70])]
-        k4 = '%s|%s|~%s' % (base, kind, render_canon(f, src)[:110])
+        k4 = '%s|%s|~%s' % (f.short, kind, render_canon(f, src)[:110])
         for k in ks:
             for ik in list(inv):
                 if ik == k or ik.startswith(k + '|in <'):
